@@ -91,8 +91,11 @@ def run_case(case):
     kind, noisy = case["kind"], case["noisy"]
     dt = 1e-9
 
+    # overall magnitude of the received voltages: ordinary, or nano- / picovolt scale (noiseless cases; thresholds scale with it)
+    amp = 1.0 if noisy else [1.0, 1.0, 1e-9, 1e-12][case["nd"] % 4]
+
     class ThrAnt(pa.Antenna):
-        thr = 0.8
+        thr = 0.8 * amp
 
         def trigger(self, signal):
             return bool(np.max(np.abs(signal.values)) > self.thr)
@@ -180,7 +183,7 @@ def run_case(case):
         wv = np.asarray(w.values, float)
         if not noisy:
             resid = np.where(wv < lo, wv - lo, np.where(wv > hi, wv - hi, 0.0))
-            scale = max(1.0, float(np.max(np.abs(e0)))) if len(e0) else 1.0
+            scale = max(amp, float(np.max(np.abs(e0)))) if len(e0) else amp
             return v.close("noiseless waveform == sum of the received signals interpolated onto the window", float(np.max(np.abs(resid))) / scale if len(resid) else 0.0,
                            1e-9, which=tag, history=log[-8:], n_signals=len(model), window_ns=[float(times[0] * 1e9), float(times[-1] * 1e9)])
         resid = wv - e0
@@ -249,6 +252,7 @@ def run_case(case):
                 vals_ = rng.normal(size=n) * float(rng.choice([0.1, 1.0]))
                 vals_[0] += np.sign(vals_[0]) * 0.5      # edge samples clearly non-zero
                 vals_[-1] += np.sign(vals_[-1]) * 0.5
+                vals_ *= amp
                 s = Signal(grid, vals_, "voltage")
                 n_before = len(base.signals)
                 ret = obj.receive(s)
@@ -275,7 +279,7 @@ def run_case(case):
                             # each passed through the front end: gain * s(t - tau), lead-in taken from the signal itself (zeros)
                             step = t[1] - t[0]
                             ext = np.concatenate((np.zeros(nd), x))[:len(x)] if nd else x
-                            v.close("system signal == front end applied to the antenna signal", float(np.max(np.abs(np.asarray(sg_.values) - gain * ext))), 1e-9 * max(1.0, float(np.max(np.abs(x)))), k=k, history=log[-6:])
+                            v.close("system signal == front end applied to the antenna signal", float(np.max(np.abs(np.asarray(sg_.values) - gain * ext))), 1e-9 * max(amp, float(np.max(np.abs(x)))), k=k, history=log[-6:])
                         else:
                             v.check(np.array_equal(sg_.values, x), "antenna signal unchanged by queries", k=k)
             elif op in ("all", "waves", "is_hit", "mc_truth"):
